@@ -524,15 +524,21 @@ where
     /// Pre-screen: does a plain LR parse of `toks` (real token indices, EOF appended here) stay
     /// within the reduction-run bound?
     pub fn terminates(&self, toks: &[TIdx<T>]) -> bool {
-        let mut stack = vec![self.st.start_state()];
-        for t in toks.iter().cloned().chain(std::iter::once(self.grm.eof_token_idx())) {
-            match self.feed(&mut stack, t) {
-                Feed::Shifted => {}
-                Feed::Accept | Feed::Error => return true,
-                Feed::Loop => return false,
+        // a table that sends the driver to a state or rule that does not exist makes the table's
+        // own accessors panic: that is no reason to exclude the input - the real parser is run
+        // on it and judged (it will fail in the same way, inside the engines' catch_unwind)
+        std::panic::catch_unwind(std::panic::AssertUnwindSafe(|| {
+            let mut stack = vec![self.st.start_state()];
+            for t in toks.iter().cloned().chain(std::iter::once(self.grm.eof_token_idx())) {
+                match self.feed(&mut stack, t) {
+                    Feed::Shifted => {}
+                    Feed::Accept | Feed::Error => return true,
+                    Feed::Loop => return false,
+                }
             }
-        }
-        true
+            true
+        }))
+        .unwrap_or(true)
     }
 }
 
